@@ -139,8 +139,6 @@ package io
 //@   ensures err == nil ==> result0 != nil && result0.hamtShardingSize == 0
 //@ func (*HAMTDirectory).needsToSwitchToBasicDir
 //@   assumed
-//@ func (*BasicDirectory).needsToSwitchToHAMTDir
-//@   assumed
 //@ func (*BasicDirectory).AddChild
 //@   assumed
 //@   modifies d.estimatedSize, d.totalLinks, fields(d.node), linkBytes(d.node), namedBytes(d.node, name)
@@ -165,6 +163,7 @@ package io
 //@   prop C16
 //@   arith bv
 //@   requires d != nil && isDirImpl(d.Directory) && unbox(d.Directory, "*HAMTDirectory") != nil && unbox(d.Directory, "*BasicDirectory") != nil
+//@   requires typeis(d.Directory, "*BasicDirectory") ==> unbox(d.Directory, "*BasicDirectory").node != nil
 //@   modifies all
 //@   ensures[threshold_kept] err == nil ==> isDirImpl(d.Directory) && shardSizeOf(d.Directory) == old(shardSizeOf(d.Directory))
 
@@ -174,3 +173,41 @@ package io
 //@   requires d != nil && isDirImpl(d.Directory) && unbox(d.Directory, "*HAMTDirectory") != nil && unbox(d.Directory, "*BasicDirectory") != nil
 //@   modifies all
 //@   ensures[threshold_kept] err == nil ==> isDirImpl(d.Directory) && shardSizeOf(d.Directory) == old(shardSizeOf(d.Directory))
+
+// sharding rule (IPIP-499): switch to HAMT iff the threshold is enabled and the estimate
+// after the operation exceeds it (strictly), or a new entry would exceed MaxLinks
+//@ macro effThreshold(d) = ite(d.hamtShardingSize > 0, d.hamtShardingSize, HAMTShardingSize)
+//@ macro disabledMode(d) = ite(d.sizeEstimation != nil, deref(d.sizeEstimation), HAMTSizeEstimation) == SizeEstimationDisabled
+//@ func (*BasicDirectory).getEffectiveShardingSize
+//@   prop C16
+//@   arith bv
+//@   requires d != nil
+//@   ensures[per_dir_or_global] result == effThreshold(d)
+//@ func (*BasicDirectory).checkMaxLinksExceeded
+//@   prop C16
+//@   arith bv
+//@   requires d != nil
+//@   ensures[rule] result == (nodeToAdd != nil && entryToRemove == nil && d.maxLinks > 0 && d.totalLinks + 1 > d.maxLinks)
+//@ func ext github.com/ipfs/go-ipld-format.MakeLink
+//@   ensures err == nil ==> result0 != nil
+//@ func (*BasicDirectory).needsToSwitchByBlockSize
+//@   prop C16
+//@   arith bv
+//@   opaque pbLinkEntry pbUnixfsDirData
+//@   requires d != nil && d.node != nil
+//@   ensures[block_rule] err == nil ==> result0 == ((d.estimatedSize - namedBytes(d.node, name) + linkEntryBytes(len(name), res("call:MakeLink#0").Cid, res("call:MakeLink#0").Size) > effThreshold(d)) || (nodeToAdd != nil && namedBytes(d.node, name) == 0 && d.maxLinks > 0 && d.totalLinks + 1 > d.maxLinks))
+//@   ensures[link_of_the_node] res("call:MakeLink#0", 1) == nil ==> err == nil
+//@   site[link_of_added_node] call:MakeLink : arg0 == nodeToAdd
+//@ func (*BasicDirectory).needsToSwitchByLinkCount
+//@   prop C16
+//@   arith bv
+//@   requires d != nil && d.node != nil
+//@   ensures[count_rule] err == nil && result0 == (nodeToAdd != nil && namedBytes(d.node, name) == 0 && d.maxLinks > 0 && d.totalLinks + 1 > d.maxLinks)
+//@ func (*BasicDirectory).needsToSwitchToHAMTDir
+//@   prop C16
+//@   arith bv
+//@   opaque pbLinkEntry pbUnixfsDirData
+//@   requires d != nil && d.node != nil
+//@   ensures[threshold_disabled] effThreshold(d) == 0 ==> err == nil && !result0
+//@   ensures[disabled_mode_counts_only] effThreshold(d) != 0 && disabledMode(d) ==> err == nil && result0 == (nodeToAdd != nil && namedBytes(d.node, name) == 0 && d.maxLinks > 0 && d.totalLinks + 1 > d.maxLinks)
+//@   ensures[block_mode] effThreshold(d) != 0 && blockMode(d) ==> res("call:BasicDirectory.needsToSwitchByBlockSize#0", 1) == err && (err == nil ==> result0 == res("call:BasicDirectory.needsToSwitchByBlockSize#0"))
